@@ -82,6 +82,9 @@ class Ctx:
         """(re)build harness/cmd/<name> against REPO's working tree with the verif tag"""
         out = os.path.join(BIN, name)
         cmd = ["go", "build", "-tags", "verif", "-o", out]
+        if os.environ.get("VERIF_COVERPKG") and name == "svh":
+            # development aid: coverage-instrumented harness (run with GOCOVERDIR set) to find code no generator reaches
+            cmd += ["-cover", "-coverpkg=" + os.environ["VERIF_COVERPKG"]]
         if REPO != "/repo":
             # build against another checkout (scratch worktrees): same go.mod with the replace path substituted
             mod = open(os.path.join(HARNESS, "go.mod")).read().replace("=> /repo", "=> " + REPO)
